@@ -11,7 +11,7 @@ direct oracle:  (a) after return every block re-run changes nothing, (b) false l
 import sys
 
 from ..common import leanio, rtlgen
-from . import c11_scc
+from . import c11_scc, c01_mamba
 from ..common.leanio import InfraError
 
 PID = 'C11'
@@ -25,6 +25,14 @@ TRUSTED = [
   'the watch list and inner order are parsed from the generated wrapper source (inspect.getsource) by rtlgen.parse_scc',
 ] + c11_scc.TRUSTED
 ASSUMPTIONS = ['self-dependence inside one block (reading a bit the same block writes) is outside the hypotheses (GenDAGPass ignores it)']
+# ---- begin: Mamba2020 SCC packing on hub designs with several instances of one lane class (harness/checks/c01_mamba.py, part='scc')
+DRIVERS = DRIVERS + c01_mamba.DRIVERS
+MODULE = MODULE + [c01_mamba.MODULE]
+THEOREMS = THEOREMS + c01_mamba.THEOREMS_SCC
+THEOREM_MODULE.update({t: c01_mamba.MODULE for t in c01_mamba.THEOREMS_SCC})
+TRUSTED = TRUSTED + c01_mamba.TRUSTED
+# ---- end
+
 RULE = ('cyclic designs of seven kinds (false / false loop through separately written fields of a bitstruct read as a whole / convergent pair / convergent ring of 3-4 / ring of 10-14 mostly branchy blocks (cut into several meta blocks by Mamba2020) / divergent / update_once-in-loop) plus upstream and '
         'downstream blocks, random operators and widths; a case = (design, pass group); all are non-trivial; distinct by (source, flow)')
 
@@ -419,8 +427,10 @@ def run(ck):
         ck.violation('update_once-in-cycle-accepted', {'flow': name}, {'source': once_source(uid), 'flow': name}, {'outcome': outcome})
   ck.extra_cov['designs'] = n
   c11_scc.run(ck)
+  c01_mamba.run(ck, part='scc')
 
 def replay(ck, data):
+  if (data.get('case') or {}).get('pass') in ('Mamba2020', 'HeuTopoUnrollSim'): return c01_mamba.replay(ck, data)
   if (data.get('case') or {}).get('scc'): return c11_scc.replay(ck, data)
   print(data.get('kind'), data.get('signature')); print(str(data.get('detail'))[:1500])
   return rtlgen.replay_source(ck, data.get('case') or {})
